@@ -275,6 +275,10 @@ func genC05Typed(rt *rapid.T) *C05Typed {
 		return vc.leafS(rt, k, false, false)
 	}
 	k0 := pick(rt, "k0", c05TypedKinds)
+	if rapid.IntRange(0, 7).Draw(rt, "rvro") == 0 {
+		s.Shape = "rvro"
+		k0 = pick(rt, "k0ro", []string{"str", "nstr", "int", "nint", "regstr", "regint", "f64", "regstruct", "structblank"})
+	}
 	k1 := k0
 	if s.Shape == "map" || s.Shape == "struct" || s.Shape == "pstruct" {
 		k1 = pick(rt, "k1", c05TypedKinds)
